@@ -61,4 +61,40 @@ SpineTypes(allTypes, types) ==
   IF h = 0 THEN <<>>
   ELSE LET hs == SelectSeq(stages[h], LAMBDA n : n.cell.t \in (IF allTypes THEN KnownHeaders ELSE types))
        IN [i \in 1..Len(hs) |-> hs[i].cell.t]
+
+(* --------------------- page bounding boxes (Document.page_bounding_boxes) --------------------- *)
+\* A *xywh-<page>:x,y,w,h interpretation (in a spine of any type) contributes a box to its page.  The index keeps, per page
+\* in order of first appearance, the union of its boxes and the measure span: from = measures open when the page first
+\* appears, to = measures open when a box of the page was last seen, and the page whose FIRST box came last keeps growing
+\* with every new measure.  (History-dependent importer state: Importer.last_bounding_box / last_measure_number.)
+RECURSIVE ParseNat(_)
+ParseNat(ds) == IF ds = <<>> THEN 0 ELSE 10 * ParseNat(SubSeq(ds, 1, Len(ds) - 1)) + (ds[Len(ds)] - 48)
+BoxOfText(t) ==           \* t = *xywh-<page>:x,y,w,h
+  LET body == SubSeq(t, 7, Len(t))  parts == SplitOn(body, 58)  nums == SplitOn(parts[2], 44)
+      x == ParseNat(nums[1])  y == ParseNat(nums[2])  w == ParseNat(nums[3])  h == ParseNat(nums[4])
+  IN [page |-> parts[1], x0 |-> x, y0 |-> y, x1 |-> x + w, y1 |-> y + h]
+MinOf(a, b) == IF a < b THEN a ELSE b
+MaxOf(a, b) == IF a > b THEN a ELSE b
+\* one box into the index; acc = [pages : Seq(record), lastp : index of the page whose first box came last, m : measures so far]
+AddBox(acc, b) ==
+  LET idx == {j \in 1..Len(acc.pages) : acc.pages[j].page = b.page} IN
+  IF idx = {} THEN [acc EXCEPT !.pages = Append(@, [page |-> b.page, x0 |-> b.x0, y0 |-> b.y0, x1 |-> b.x1, y1 |-> b.y1, from |-> acc.m, to |-> acc.m]),
+                               !.lastp = Len(acc.pages) + 1]
+  ELSE LET j == CHOOSE k \in idx : TRUE IN
+       [acc EXCEPT !.pages[j] = [@ EXCEPT !.x0 = MinOf(@, b.x0), !.y0 = MinOf(@, b.y0), !.x1 = MaxOf(@, b.x1), !.y1 = MaxOf(@, b.y1), !.to = acc.m]]
+RECURSIVE AddBoxes(_, _, _)
+AddBoxes(acc, row, i) == IF i > Len(row) THEN acc
+                         ELSE AddBoxes(IF row[i].cell.k = "bbox" THEN AddBox(acc, BoxOfText(row[i].cell.t)) ELSE acc, row, i + 1)
+RECURSIVE PageScan(_, _)
+PageScan(s, acc) ==
+  IF s > Len(stages) THEN acc
+  ELSE IF ~IsSpineStage(s) THEN PageScan(s + 1, acc)
+  ELSE LET a1 == AddBoxes(acc, stages[s], 1)
+           opens == \E j \in 1..Len(mstarts) : mstarts[j] = s
+           a2 == IF opens THEN (IF a1.lastp = 0 THEN [a1 EXCEPT !.m = @ + 1]
+                                ELSE [a1 EXCEPT !.m = @ + 1, !.pages[a1.lastp].to = a1.m + 1])
+                 ELSE a1
+       IN PageScan(s + 1, a2)
+PageIndex == LET r == PageScan(2, [pages |-> <<>>, lastp |-> 0, m |-> 0]).pages IN
+             [j \in 1..Len(r) |-> <<r[j].page, r[j].x0, r[j].y0, r[j].x1, r[j].y1, r[j].from, r[j].to>>]
 =============================================================================
